@@ -534,6 +534,19 @@ class RigidCorr(Corr):
 # ------------------------------------------------------------------------------------------------
 # correspondence 2: TransformDict
 # ------------------------------------------------------------------------------------------------
+def effective_registry(case):
+    """The registry content after the case's operation sequence: `reg[key] = M` replaces / adds the entry of that key (the model's lookup
+    takes the LAST entry of a key, like the dict the constructor builds), `del reg[key]` removes it, queries change nothing."""
+    reg = list(case["registry"])
+    for op in case.get("ops", []):
+        if op["op"] == "set":
+            reg.append(op["spec"])
+        elif op["op"] == "del":
+            k = (doc_frame(op["spec"]["src"]), doc_frame(op["spec"]["dst"]))
+            reg = [m for m in reg if (doc_frame(m["src"]), doc_frame(m["dst"])) != k]
+    return reg
+
+
 class RegistryCorr(Corr):
     name = "registry"
     header = HEADER
@@ -589,6 +602,28 @@ class RegistryCorr(Corr):
                 # a matrix whose source is (usually) the query's destination frame
                 msrc = kb if rng.random() < 0.85 else rng.choice(FRAME_KEYS)
                 c["M"] = rand_rigid(rng, msrc, rng.choice(FRAME_KEYS), forms=("tuple",))
+            if reg and rng.random() < 0.45:
+                # an operation sequence on the SAME registry before the final query: earlier queries (both directions, so that any
+                # memoised inverse is populated), re-registration of an entry with a new transform, deletion, registration of the reverse
+                ops = []
+                for _ in range(rng.randint(1, 4)):
+                    u = rng.random()
+                    m = rng.choice(reg)
+                    if u < 0.45:
+                        qa, qb = (m["src"], m["dst"]) if rng.random() < 0.4 else (m["dst"], m["src"])
+                        if rng.random() < 0.4:
+                            qa, qb = a, b
+                        ops.append({"op": "query", "a": qa, "b": qb})
+                    elif u < 0.8:
+                        s_, d_ = doc_frame(m["src"]), doc_frame(m["dst"])
+                        if rng.random() < 0.25:
+                            s_, d_ = d_, s_
+                        ops.append({"op": "set", "spec": rand_rigid(rng, s_, d_, forms=("tuple", "Quaternion")), "keyobj": rng.random() < 0.5})
+                    elif u < 0.9:
+                        ops.append({"op": "del", "spec": m})
+                    else:
+                        ops.append({"op": "query", "a": a, "b": b})
+                c["ops"] = ops
             out.append(c)
         return out
 
@@ -598,6 +633,23 @@ class RegistryCorr(Corr):
 
         mats = [build(s) for s in case["registry"]]
         reg = TransformDict(mats[0] if len(mats) == 1 and case["p"][0] > 0 else mats)
+        for op in case.get("ops", []):
+            if op["op"] == "query":
+                try:
+                    reg.transform((_frame_arg(op["a"]), _frame_arg(op["b"])), (1.0, 2.0, 3.0))
+                except (KeyError, ValueError):
+                    pass
+            else:
+                sp = op["spec"]
+                k = (_frame_arg(sp["src"]), _frame_arg(sp["dst"]))
+                k = TransformKey(*k) if op.get("keyobj") else k
+                if op["op"] == "set":
+                    reg[k] = build(sp)
+                else:
+                    try:
+                        del reg[k]
+                    except KeyError:
+                        pass
         a, b = _frame_arg(case["a"]), _frame_arg(case["b"])
         o = {"n_keys": len(reg)}
         try:
@@ -633,7 +685,7 @@ class RegistryCorr(Corr):
         return c_sp(case["a"]), c_sp(case["b"])
 
     def coq_term(self, case, obs):
-        specs = list(case["registry"])
+        specs = effective_registry(case)
         names = [f"T{i}" for i in range(len(specs))]
         reg = llit(names)
         a, b = self._args(case)
@@ -662,7 +714,7 @@ class RegistryCorr(Corr):
         return with_rigids(specs, body, names)
 
     def coq_debug(self, case, obs):
-        specs = list(case["registry"])
+        specs = effective_registry(case)
         names = [f"T{i}" for i in range(len(specs))]
         a, b = self._args(case)
         out = f"Some (reg_lookup {llit(names)} {a} {b})"
@@ -677,11 +729,12 @@ class RegistryCorr(Corr):
             return "ValueError", None
         if s == d:
             return "identity", None
-        lab = [(doc_frame(m["src"]), doc_frame(m["dst"])) for m in case["registry"]]
-        direct = [m for m, l in zip(case["registry"], lab) if l == (s, d)]
+        registry = effective_registry(case)
+        lab = [(doc_frame(m["src"]), doc_frame(m["dst"])) for m in registry]
+        direct = [m for m, l in zip(registry, lab) if l == (s, d)]
         if direct:
             return "direct", direct[-1]
-        rev = [m for m, l in zip(case["registry"], lab) if l == (d, s)]
+        rev = [m for m, l in zip(registry, lab) if l == (d, s)]
         if rev:
             return "inverse", rev[-1]
         return "KeyError", None
@@ -746,7 +799,9 @@ class RegistryCorr(Corr):
         return len(case["registry"]) > 0
 
     def distribution(self, cases, obs):
-        d = {"expected": {}, "args": {}, "key_forms": {"member": 0, "str": 0, "TransformKey": 0}, "registry_sizes": {}}
+        d = {"expected": {}, "args": {}, "key_forms": {"member": 0, "str": 0, "TransformKey": 0}, "registry_sizes": {},
+             "cases_with_operation_sequence": sum(1 for c in cases if c.get("ops")),
+             "operations": {k: sum(1 for c in cases for op in c.get("ops", []) if op["op"] == k) for k in ("query", "set", "del")}}
         for c, o in zip(cases, obs):
             k = self._expected(c)[0]
             d["expected"][k] = d["expected"].get(k, 0) + 1
